@@ -4,6 +4,7 @@
 import Gmars.Proofs.Abs
 import Gmars.Proofs.RecorderProofs
 import Gmars.Proofs.Reports
+import Gmars.Proofs.DebugLine
 
 namespace Gmars.Props.C15
 open Gmars
@@ -79,5 +80,27 @@ theorem recorder_reset (r : Recorder) (len : Int → Option Nat) (rp : Report) (
 
 /-- a fresh recorder satisfies the hypotheses of `recorder_last_writer` -/
 theorem recorder_new_inv (coresize : UInt64) : (Recorder.new coresize).Inv := Recorder.new_inv coresize
+
+
+/-- `debug_trace_faithful` — the listener shipped with the package (`NewDebugReporter`) loses
+    nothing: for every report that names a warrior and an address, the line it prints (model
+    `debugLine`, tied by the `debug` domain) determines the report's type, warrior index and
+    address; the other report (`r'`) is arbitrary, so no two different such reports, under any
+    cycle counts and cells, print alike. -/
+theorem debug_trace_faithful (r r' : Report) (c c' : Nat) (m : UInt64) (cell cell' : Instr)
+    (ht : r.typ ≠ .simReset ∧ r.typ ≠ .cycleStart ∧ r.typ ≠ .cycleEnd)
+    (h : debugLine r c m cell = debugLine r' c' m cell') :
+    r.typ = r'.typ ∧ r.wi = r'.wi ∧ r.addr = r'.addr :=
+  DebugLine.debugLine_faithful r r' c c' m cell cell' ht h
+
+/-- an `Exec` line also determines the instruction that was executed (fields inside the core) -/
+theorem debug_exec_cell (r r' : Report) (c c' : Nat) (m : UInt64) (cell cell' : Instr)
+    (hp : r.typ = .taskPop) (hi : cell.a < m ∧ cell.b < m) (hj : cell'.a < m ∧ cell'.b < m)
+    (h : debugLine r c m cell = debugLine r' c' m cell') : cell = cell' :=
+  DebugLine.debugLine_exec_cell r r' c c' m cell cell' hp hi hj h
+
+-- a concrete line: warrior 1 increments cell 7
+example : String.ofList (debugLine { typ := .increment, wi := 1, addr := 7 } 0 8000 default) =
+    "W01 0007: Increment\n" := by decide
 
 end Gmars.Props.C15
